@@ -189,3 +189,65 @@ def replay_digraph(r):
 
 CHECKS['C13'] = c13
 REPLAYERS['digraph-query'] = replay_digraph
+
+
+def c09(prop, pool, verdict, tier, seed):
+    from fin import opcodes
+    from rtc import prop_c09
+    e1 = run_e1(prop, pool, verdict, tier, seed)
+    fz = run_fuzz(prop, pool, verdict, tier, seed)
+    e3 = opcodes.check()
+    for f in e3['failures']:
+        rp = write_replay(prop, 'opcode-%s-%s' % (f['opname'], f['clause']),
+                          {'kind': 'opcode-table', 'property': prop, 'obligation': 'utils.opcode-tables::class[%s]' % f['opname'], 'detail': f})
+        verdict.violation(rp)
+    d = prop_c09.run(pool, tier, seed)
+    by = {}
+    for f in d['fails']:
+        by.setdefault(f['kind'], []).append(f)
+    for k, fs in sorted(by.items()):
+        rp = write_replay(prop, 'corpus-' + k, {'kind': 'bytecode-corpus', 'property': prop, 'check': k, 'origin': fs[0]['origin'],
+                                                'detail': fs[0]['detail'], 'failing_inputs_in_scope': len(fs)})
+        verdict.violation(rp)
+    cov = coverage_from(e1, fz, PROVED_NOTE + 'C09: E3 (complete for the running interpreter): the library\'s classification of every real opcode equals the '
+                        'class derived from dis.hasjrel/hasjabs and the opcode name, and unconditional/returning opcodes have no inline cache entries. '
+                        'Bounded: ByteFlow.from_bytecode on a corpus of standard-library code objects against an independently computed leader/partition/successor '
+                        'ground truth (also validates the dis assumptions WFdis).')
+    cov['obligations'] += e3['obligations']
+    cov['discharged'] += e3['discharged']
+    cov['finite_domain'] = {'domain': e3['domain'], 'python': e3['python'], 'backend': 'finite-enumeration', 'obligations': e3['obligations']}
+    cov['evaluations'] = d['in_domain'] + fz['evaluations']
+    cov['distinct_nontrivial'] = d['nontrivial']
+    cov['rule'] = ('code objects (functions, methods, nested code) of %d standard-library modules plus hand-written functions covering each in-domain jump/return '
+                   'opcode; in domain = no exception table, no generator/coroutine flag, no raise/yield/with opcode; non-trivial = contains a jump opcode; '
+                   '%d collected, %d in domain; jump/return opcodes met: %s' % (len(prop_c09.MODULES), d['code_objects'], d['in_domain'], d['opnames']))
+    cov['exhaustive'] = False
+    cov['samples'] = cov['samples'] + e3['samples'][:3] + d['samples']
+    return 'other', cov, e1['assumptions'] + [
+        'WFdis: dis.Bytecode yields strictly increasing even offsets, argval of a jump is an instruction offset of the same stream, is_jump_target marks exactly the jump targets (validated on the corpus, not proved)',
+        'A-uncond: the unconditional jumps are the opcodes named JUMP_FORWARD/JUMP_BACKWARD/JUMP_ABSOLUTE(_NO_INTERRUPT)',
+        'only the running interpreter (3.12) is covered; no 3.11 interpreter is installed']
+
+
+def replay_opcode(r):
+    from fin import opcodes
+    e3 = opcodes.check()
+    bad = [f for f in e3['failures'] if f['opname'] == r['detail']['opname']]
+    print('replay opcode table: %s' % bad)
+    return 1 if bad else 0
+
+
+def replay_corpus(r):
+    from rtc import prop_c09
+    for origin, co in prop_c09.code_objects():
+        if origin == r['origin']:
+            res = prop_c09.check_code(co)
+            print('replay %s: %s' % (origin, res))
+            return 1 if res else 0
+    print('code object not found')
+    return 3
+
+
+CHECKS['C09'] = c09
+REPLAYERS['opcode-table'] = replay_opcode
+REPLAYERS['bytecode-corpus'] = replay_corpus
